@@ -47,9 +47,10 @@ PROPOSED_KNOWN = [
              "evaluates at the NextDirectioner's unclamped step: MoreThuente then judges phi(step_unclamped) as if it "
              "were phi(step_clamped). Observed: BFGS (NextDirection returns 1) with &MoreThuente{DecreaseFactor: 1e-4, "
              "MaximumStep: 0.75}: the point at step 1 satisfies Armijo and the curvature condition, Iterate returns "
-             "ErrLinesearcherBound (and a step above MaximumStep was evaluated); GradientDescent with "
-             "&MoreThuente{DecreaseFactor: 1e-4, CurvatureFactor: 0.5, MinimumStep: 0.05} and an initial step below 0.05: "
-             "MajorIteration is returned with step 0.05 although the evaluated (and accepted) step is the smaller one."},
+             "ErrLinesearcherBound in the second line search of a planted quadratic (and a step above MaximumStep was "
+             "evaluated); BFGS with &MoreThuente{DecreaseFactor: 1e-4, CurvatureFactor: 0.5, MinimumStep: 0.05} on "
+             "functions.Watson from (-1.5,-1.125,-0.125,-1,-1.875,-0.5) (initial step 1/|g| < 0.05): Iterate returns "
+             "MajorIteration with step 0.05 although the step evaluated (and thereby accepted) is the smaller one."},
 ]
 
 
@@ -146,4 +147,5 @@ def replay_ls(ctx, d):
     print("trace accepted" if ok else "trace rejected: " + st.get("detail", "")[:1200])
     if not ok:
         print("VIOLATION property=%s replay=%s" % (ctx.id, d["trace"]))
+    shutil.rmtree(ctx.work, ignore_errors=True)
     return 0 if ok else 1
